@@ -298,13 +298,19 @@ def check_positions(ctx, lib):
     # under each case of self.variadic, every per-argument check reachable in that case validates args[k] at position k against
     # inputs[k] (no variadic type) resp. inputs.get(k) or else the variadic type
     sites = [(bb, t) for bb, t in v.calls() if t["callee"] == "functions::Signature::validate_arg"]
-    ctx.check(1 <= len(sites) <= 2, rule, "sites", f"validate has its per-argument check(s) (found {len(sites)})", v.span)
     br0 = Branches(v, o)
     vsw = []
     for sb, sw in br0.switches():
         ve = br0.variant_edges(sb)
         if ve and ve["adt"] == "std::option::Option" and ve["scrutinee"] == {("field", ("param", 1), "variadic")}:
             vsw.append((sb, ve["edges"].get("Some", ve["otherwise"]), ve["edges"].get("None", ve["otherwise"])))
+    if not vsw:
+        # third spelling: no case split at all — the validators are one sequence, `inputs` followed by the variadic type
+        # repeated for ever, zipped with the arguments
+        check_zipped_positions(ctx, lib, rule, v, o)
+        check_validate_arg(ctx, lib, rule)
+        return
+    ctx.check(1 <= len(sites) <= 2, rule, "sites", f"validate has its per-argument check(s) (found {len(sites)})", v.span)
     ctx.check(bool(vsw), rule, "case-split", "validate distinguishes signatures with and without a variadic type", v.span)
     kinds = set()
     fixed_t = ("elem", ("field", ("param", 1), "inputs"), ("ix", fs({("index", ("param", 2))})))
@@ -351,8 +357,61 @@ def check_positions(ctx, lib):
             some_t = ve["edges"].get("Some", ve["otherwise"]) if ve else None
             skip = some_t is not None and nb in reach_avoiding(v, some_t, avoid_blocks=chk_blocks)
             ctx.check(not skip, rule, f"no-skip@bb{nb}", "every argument of the iteration goes through validate_arg (no path back to the loop head avoids it)", v.span)
-    # loops: every cycle iterates enumerate(args)
-    # validate_arg
+    check_validate_arg(ctx, lib, rule)
+
+
+def check_zipped_positions(ctx, lib, rule, v, o):
+    from ..collected import call_sites
+    ARGS = ("iter", ("param", 2))
+    VALIDATORS = ("chain", ("iter", ("field", ("param", 1), "inputs")), ("cycle_iter", ("iter", ("field", ("param", 1), "variadic"))))
+    Z = ("zip", ARGS, VALIDATORS)
+    sites = call_sites(lib, v, o, "functions::Signature::validate_arg")
+    ctx.check(len(sites) == 1, rule, "sites", f"validate has its per-argument check(s) (found {len(sites)})", v.span)
+    ctx.check(True, rule, "case-split", "validate pairs the arguments with one validator sequence (inputs, then the variadic type repeated)", v.span)
+    good = False
+    for argterms, span in sites:
+        pos, val, vd = argterms[2], argterms[3], argterms[4]
+        ok = pos == {("index", Z)} and val == {("elem", ("param", 2))} and vd == {("elem", VALIDATORS)}
+        good = good or ok
+        for case in ("fixed", "variadic"):
+            ctx.check(ok, rule, f"site@{case}",
+                      "validate_arg(ctx, k, args[k], k-th of inputs.chain(variadic.cycle())) for every (k, (arg, validator)) of args.zip(..).enumerate()"
+                      + ("" if ok else f" — found position {fmt_terms(pos)[:80]}, value {fmt_terms(val)[:60]}, validator {fmt_terms(vd)[:140]}"), span)
+    ctx.check(good, rule, "both-cases", "the fixed and the variadic positions are served by the one validator sequence", v.span)
+    # nothing skipped, failure passed on: loop form -> no way round the check; closure form -> the closure's result is the check's
+    # result and validate's result is the traversal's
+    direct = [(bb, t) for bb, t in v.calls() if t["callee"] == "functions::Signature::validate_arg"]
+    br0 = Branches(v, o)
+    if direct:
+        for cyc in cfg_cycles(v):
+            cs = set(cyc)
+            nexts = [x for x in cyc if v.blocks[x]["term"]["k"] == "call" and v.blocks[x]["term"]["callee"] == "std::iter::Iterator::next"]
+            chk_blocks = [bb for bb, t in direct if bb in cs]
+            if nexts and chk_blocks:
+                nb = nexts[0]
+                ve = br0.variant_edges(v.blocks[nb]["term"]["t"])
+                some_t = ve["edges"].get("Some", ve["otherwise"]) if ve else None
+                skip = some_t is not None and nb in reach_avoiding(v, some_t, avoid_blocks=chk_blocks)
+                ctx.check(not skip, rule, f"no-skip@bb{nb}", "every argument of the iteration goes through validate_arg (no path back to the loop head avoids it)", v.span)
+    else:
+        ok = False
+        for bb, t in v.calls():
+            if t["callee"] == "std::iter::Iterator::try_for_each":
+                clo = [x for x in o.of_operand(t["args"][1]) if x[0] == "closure"]
+                if len(clo) == 1:
+                    cb = lib.fn(clo[0][1])
+                    co = Origins(cb, lib)
+                    r = co.of_local(0)
+                    ok = bool(r) and all(x[0] == "call" and x[1] == "functions::Signature::validate_arg" for x in r)
+                    from ..analysis import strip_through
+                    ret = {strip_through(x) for x in o.of_local(0)}
+                    ok = ok and any(x[0] == "call" and x[1] == "std::iter::Iterator::try_for_each" for x in ret) and \
+                        all(x[0] == "call" and x[1] in ("std::iter::Iterator::try_for_each", "functions::Signature::validate_arity") or
+                            (x[0] == "agg" and x[1] == "std::result::Result::Ok") for x in ret)
+        ctx.check(ok, rule, "no-skip@closure", "each item's check result is the closure's result and the traversal's result is validate's (first failure returned)", v.span)
+
+
+def check_validate_arg(ctx, lib, rule):
     va = ctx.fn("functions::Signature::validate_arg", rule=rule)
     if va is None:
         return
